@@ -349,10 +349,20 @@ theorem checkExprStmt_ok_iff (Γ : Ctx) (hΓ : SigsOk Γ) (e : TExpr) :
     rw [← check_iff Γ hΓ] at h
     simp [h, requireVoid]
 
-theorem checkAssign_ok_iff (Γ : Ctx) (hΓ : SigsOk Γ) (v : VarRef) (op : AssignOp) (e : TExpr) :
-    checkAssign Γ v op e = .ok () ↔
+theorem checkAssignable_ok_iff (Γ : Ctx) (v : VarRef) :
+    checkAssignable Γ v = .ok () ↔ Assignable Γ v := by
+  unfold checkAssignable Assignable
+  cases v.isReg <;> cases Γ.isConst v.id <;> simp
+
+theorem checkAssignable_cases (Γ : Ctx) (v : VarRef) :
+    checkAssignable Γ v = .ok () ∨ checkAssignable Γ v = .err constAssignErr := by
+  unfold checkAssignable
+  split <;> simp
+
+theorem checkAssignTyped_ok_iff (Γ : Ctx) (hΓ : SigsOk Γ) (v : VarRef) (op : AssignOp) (e : TExpr) :
+    checkAssignTyped Γ v op e = .ok () ↔
       ∃ t, ReadTy (Γ.refTy v) v.sig t ∧ HasType Γ e (.value t) ∧ AssignTy op t := by
-  unfold checkAssign AssignTy
+  unfold checkAssignTyped AssignTy
   constructor
   · intro h
     split at h
@@ -388,12 +398,32 @@ theorem checkAssign_ok_iff (Γ : Ctx) (hΓ : SigsOk Γ) (v : VarRef) (op : Assig
       simp only [hb] at hop
       simpa using (binopCheck_ok_iff b t t).mpr ⟨rfl, hop⟩
 
+theorem checkAssign_ok_iff (Γ : Ctx) (hΓ : SigsOk Γ) (v : VarRef) (op : AssignOp) (e : TExpr) :
+    checkAssign Γ v op e = .ok () ↔
+      (Assignable Γ v ∧
+        ∃ t, ReadTy (Γ.refTy v) v.sig t ∧ HasType Γ e (.value t) ∧ AssignTy op t) := by
+  unfold checkAssign
+  rw [← checkAssignable_ok_iff, ← checkAssignTyped_ok_iff Γ hΓ]
+  rcases checkAssignable_cases Γ v with h | h <;> simp [h]
+
+theorem checkClobber_ok_iff (Γ : Ctx) (v : VarRef) (tc : Ty) :
+    checkClobber Γ v tc = .ok () ↔ (Assignable Γ v ∧ ReadTy (Γ.refTy v) v.sig tc) := by
+  unfold checkClobber
+  rw [← checkAssignable_ok_iff, ← checkVar_ok_iff]
+  rcases checkAssignable_cases Γ v with h | h
+  · simp only [h, true_and]
+    cases hv : checkVar (Γ.refTy v) v.sig with
+    | ok tv => by_cases ht : tv = tc <;> simp [requireSame, ht]
+    | err c => simp
+    | panic s => simp
+  · simp [h]
+
 theorem checkTimes_ok_iff (Γ : Ctx) (hΓ : SigsOk Γ) (cl : Option VarRef) (count : TExpr) :
     checkTimes Γ cl count = .ok () ↔
       (HasType Γ count (.value .int) ∧
         (match cl with
           | none => True
-          | some v => ReadTy (Γ.refTy v) v.sig .int)) := by
+          | some v => Assignable Γ v ∧ ReadTy (Γ.refTy v) v.sig .int)) := by
   unfold checkTimes
   constructor
   · intro h
@@ -409,18 +439,7 @@ theorem checkTimes_ok_iff (Γ : Ctx) (hΓ : SigsOk Γ) (cl : Option VarRef) (cou
         | none => trivial
         | some v =>
           simp only at h ⊢
-          split at h
-          · rename_i tv hv
-            rw [checkVar_ok_iff] at hv
-            split at h
-            · rename_i u hs
-              rw [requireSame_ok_iff] at hs
-              obtain ⟨rfl, _⟩ := hs
-              exact hv
-            · cases h
-            · cases h
-          · cases h
-          · cases h
+          exact (checkClobber_ok_iff Γ v _).mp h
       · cases h
       · cases h
     · cases h
@@ -432,8 +451,7 @@ theorem checkTimes_ok_iff (Γ : Ctx) (hΓ : SigsOk Γ) (cl : Option VarRef) (cou
     | none => rfl
     | some v =>
       simp only at hcl ⊢
-      rw [← checkVar_ok_iff] at hcl
-      simp [hcl, requireSame]
+      exact (checkClobber_ok_iff Γ v _).mpr hcl
 
 theorem checkDecl_ok_iff (Γ : Ctx) (hΓ : SigsOk Γ) (x : Nat) (e : TExpr) :
     checkDecl Γ x (some e) = .ok () ↔ ∃ t, Γ.varTy x = .typed t ∧ HasType Γ e (.value t) := by
